@@ -59,7 +59,11 @@ func c20WinCfg(reno bool, initPkts int, rto bool, dq, dt int) func(bool) *c20Cfg
 			maxMTU: 1, rto: rto, maxRTO: 1,
 		}
 		if !reno {
-			c.steps = []time.Duration{time.Second, time.Hour}
+			// Reno's window arithmetic does not read the clock; Cubic's does
+			c.steps = []time.Duration{time.Second, 30 * time.Second}
+			if initPkts == 8 {
+				c.steps = []time.Duration{time.Second, time.Hour}
+			}
 		}
 		if th {
 			c.depth = dt
@@ -101,14 +105,15 @@ func c20CapCfg(reno bool, dq, dt int) func(bool) *c20Cfg {
 
 func TestVerifC20Cc(t *testing.T) {
 	explore.Main("C20", []explore.Part{
+		// parts without a finding on the unchanged tree first (readable mutant reports)
 		c20Part("reno-window", c20WinCfg(true, 4, false, 8, 9)),
-		c20Part("cubic-window", c20WinCfg(false, 4, false, 7, 8)),
-		c20Part("reno-window3", c20WinCfg(true, 3, false, 7, 8)),
 		c20Part("reno-window8", c20WinCfg(true, 8, true, 7, 8)),
-		c20Part("cubic-window8", c20WinCfg(false, 8, true, 6, 7)),
 		c20Part("reno-pacer", c20PacerCfg(true, 4, 5, 6)),
 		c20Part("cubic-pacer", c20PacerCfg(false, 4, 5, 6)),
 		c20Part("reno-cap", c20CapCfg(true, 6, 8)),
 		c20Part("cubic-cap", c20CapCfg(false, 6, 8)),
+		c20Part("reno-window3", c20WinCfg(true, 3, false, 7, 8)),
+		c20Part("cubic-window", c20WinCfg(false, 4, false, 7, 8)),
+		c20Part("cubic-window8", c20WinCfg(false, 8, true, 6, 7)),
 	}, func(msg string) { t.Fatal(msg) })
 }
